@@ -4,4 +4,5 @@ From Grandpa Require Import Tree Votes RoundSpec.
 From C20 Require Import Model.
 Extraction "model.ml" drv_b2n drv_n2b drv_z_of_n drv_n_of_z drv_nat_of_n drv_n_of_nat
   mkVote round_state_of import_flags participants in_domain cur_weight eq_weight weight
-  threshold total tolerant possible has_supermajority depth chain.
+  threshold total tolerant possible has_supermajority depth chain
+  possible_go state_at round_state_go rs_eqb children.
